@@ -266,7 +266,7 @@ def _spec_dimension(spec):
     return None
 
 
-def build_arguments(modname: str, fname: str, func, jitter: float = 1.0):
+def build_arguments(modname: str, fname: str, func, jitter: float = 1.0, seqlen: int = 3):
     """Quantity arguments for a guarded function, or None if some parameter has no usable spec."""
     from sympy.physics.units import Dimension  # pylint: disable=import-outside-toplevel
     from symplyphysics import Quantity  # pylint: disable=import-outside-toplevel
@@ -308,7 +308,7 @@ def build_arguments(modname: str, fname: str, func, jitter: float = 1.0):
                 return None
             args[p.name] = QuantityVector(items)
         elif any(t in ann for t in ("Sequence", "list[", "List[", "tuple[", "Tuple[")):
-            items = [quantity(spec, f"[{i}]") for i in range(3)]
+            items = [quantity(spec, f"[{i}]") for i in range(seqlen)]
             if any(x is None for x in items):
                 return None
             args[p.name] = items
@@ -383,7 +383,7 @@ def _rel_diff(a, b) -> float:
     return 0.0 if a == b else float("inf")
 
 
-def call_functions(mod, only=None, prepared=None, jitter: float = 1.0, conditioning: bool = False) -> dict:
+def call_functions(mod, only=None, prepared=None, jitter: float = 1.0, conditioning: bool = False, seqlen: int = 3) -> dict:
     """Outcome of every guarded function on its argument tuple. With `conditioning` each returning
     function is called once more with arguments perturbed by 1e-13 (relative): if the result moves
     by more than 1e-7 the function is numerically ill-conditioned at these arguments (e.g. a phase
@@ -403,7 +403,7 @@ def call_functions(mod, only=None, prepared=None, jitter: float = 1.0, condition
             if prepared is not None and prepared.get(fname) is not None:
                 args = prepared[fname]
             else:
-                args = build_arguments(mod.__name__, fname, func, jitter)
+                args = build_arguments(mod.__name__, fname, func, jitter, seqlen)
         except Exception as ex:  # pylint: disable=broad-except
             out[fname] = ["argerror", type(ex).__name__]
             continue
